@@ -41,7 +41,9 @@ type c01Plan struct {
 	Forks    string        `json:"forks"`
 	Miners   int           `json:"miners"`           // miners registered by the setup block
 	Shared   int           `json:"shared,omitempty"` // + this many proposers registered in the setup block under ONE reward account
-	Jump     uint64        `json:"jump,omitempty"`   // height slots skipped by the block under test (miners applied in the setup count from apply height + 300)
+	Conc     int           `json:"conc,omitempty"`   // >0: this many executions of the block run CONCURRENTLY in one process (plus the competing block), under ConcSeed
+	ConcSeed uint64        `json:"conc_seed,omitempty"`
+	Jump     uint64        `json:"jump,omitempty"` // height slots skipped by the block under test (miners applied in the setup count from apply height + 300)
 	Txs      []node.TxSpec `json:"txs"`
 	Alt      []node.TxSpec `json:"alt,omitempty"` // a DIFFERENT block of the same height (replicas with warm=3 execute it first)
 	QN       uint64        `json:"qn"`
@@ -72,7 +74,7 @@ func (c01) Describe() runner.Description {
 		Assumptions: []string{"replicas are sequential incarnations in one process (singletons): process-local caches are reset the way a fresh process starts", "fork configuration fixed per plan (latestsync or devlike)"},
 		Real:        []string{"core/vmexecutor + all executors", "service (ChangeAssets, miner/refund/reward managers, tx pool)", "storage/account + trie", "vm (EVM)", "core cast/verify/add path"},
 		Stub:        []string{"ConsensusHelper", "network", "NTP clock (simulated)"},
-		FaultKinds:  []string{"map_order_seed", "clock_epoch_shift", "clock_drift_per_call", "cold_boot_replica", "warm_touch_order", "warm_discarded_block", "warm_competing_block_same_height"},
+		FaultKinds:  []string{"map_order_seed", "clock_epoch_shift", "clock_drift_per_call", "cold_boot_replica", "warm_touch_order", "warm_discarded_block", "warm_competing_block_same_height", "concurrent_executions_in_one_process"},
 	}
 }
 
@@ -198,6 +200,9 @@ func (c01) Gen(seed uint64, tier string) json.RawMessage {
 		if r.Chance(0.5) {
 			p.Shared = r.Range(3, 5)
 		}
+	}
+	if r.Chance(0.2) {
+		p.Conc, p.ConcSeed = r.Range(2, 3), r.U64()
 	}
 	if r.Chance(0.5) {
 		// a competing block of the same height that moves proposer stakes
@@ -575,6 +580,77 @@ func (c01) Exec(raw json.RawMessage, st *simrt.Stats, log *simrt.Log) *simrt.Vio
 			return simrt.Violationf("C01", "replica-divergence", where, i, "replica 0 (canonical map order, cold) and replica %d (map seed %x, warm %d, clock +%ds, drift %dms) disagree: %s", i, rep.MapSeed, rep.Warm, rep.ClockS, rep.StepMs, detail)
 		}
 	}
+	// concurrent executions in one process: what a node does when it verifies a block while its own
+	// casting goroutine (or a fork switch, or an RPC call) executes another - each on its own state
+	// object, so every one of them must still produce replica 0's outcome
+	if p.Conc > 0 {
+		simmap.Seed = 0
+		utility.SimClock = nil
+		node.SetTime(node.EpochTime.Add(time.Duration(p.TimeMs) * time.Millisecond))
+		node.Boot(image.Clone(), forks, false)
+		mgr := &middleware.AccountDBManagerInstance
+		outs := make([]c01Outcome, p.Conc)
+		var names []string
+		var tasks []func()
+		for ti := 0; ti < p.Conc; ti++ {
+			ti := ti
+			state, err := mgr.GetAccountDBByHash(parent.StateTree)
+			if err != nil {
+				panic(runner.InfraError{Msg: "C01: parent state: " + err.Error()})
+			}
+			names = append(names, fmt.Sprintf("exec%d", ti))
+			tasks = append(tasks, func() {
+				h := hdr
+				cpt := make([]*types.Transaction, len(txs))
+				for i, t := range txs {
+					c := *t
+					cpt[i] = &c
+				}
+				root, evicted, exec, receipts := core.SimExecuteBlock(state, &types.Block{Header: &h, Transactions: cpt}, "fullverify")
+				o := c01Outcome{root: root.Hex()}
+				for _, e := range evicted {
+					o.evicted = append(o.evicted, e.Hex())
+				}
+				for _, t := range exec {
+					o.executed = append(o.executed, t.Hash.Hex())
+					o.kinds = append(o.kinds, t.Type)
+				}
+				for _, rc := range receipts {
+					b, _ := json.Marshal(rc)
+					o.receipts = append(o.receipts, string(b)+" msg="+rc.Msg)
+				}
+				outs[ti] = o
+			})
+		}
+		if len(altTxs) > 0 {
+			other, _ := mgr.GetAccountDBByHash(parent.StateTree)
+			names = append(names, "competing")
+			tasks = append(tasks, func() {
+				h := hdr
+				h.ProveValue = bigFrom(hdr.ProveValue.Int64() + 17)
+				alt := make([]*types.Transaction, len(altTxs))
+				for i, t := range altTxs {
+					c := *t
+					alt[i] = &c
+				}
+				core.SimExecuteBlock(other, &types.Block{Header: &h, Transactions: alt}, "fullverify")
+			})
+		}
+		res := simsched.Run(simsched.Options{Seed: p.ConcSeed, Policy: "random", MaxPreempt: -1, MaxSteps: 4000000}, names, tasks)
+		st.Fault("concurrent_executions_in_one_process")
+		st.ProbeN("task_switches", int64(res.Switches))
+		if res.Panic != nil {
+			return simrt.Violationf("C01", "host-panic", "concurrent-execution", len(p.Replicas), "%v", res.Panic)
+		}
+		if res.Deadlock {
+			return simrt.Violationf("C01", "no-progress", "concurrent-execution", len(p.Replicas), "concurrent executions did not finish (deadlock)")
+		}
+		for ti, o := range outs {
+			if where, detail := c01Diff(first, o); where != "" {
+				return simrt.Violationf("C01", "replica-divergence", "concurrent-"+where, len(p.Replicas), "replica 0 (alone in its process) and execution %d of %d running concurrently in one process (schedule %x) disagree: %s", ti, p.Conc, p.ConcSeed, detail)
+			}
+		}
+	}
 	// protocol path: proposer casts through the pool, another incarnation verifies and adds
 	simmap.Seed = p.Replicas[len(p.Replicas)-1].MapSeed
 	node.SetTime(node.EpochTime.Add(time.Duration(p.TimeMs) * time.Millisecond))
@@ -651,4 +727,23 @@ func (c01) Shrink(raw json.RawMessage) []json.RawMessage {
 		emit(q)
 	}
 	return out
+}
+
+// RacePlan / RaceFrames: the race-detector stage (DESIGN.md 13.4) re-runs concurrent-execution plans
+// in the build whose task hand-off is invisible to the detector.
+func (c01) RacePlan(seed uint64, i int) json.RawMessage {
+	var p c01Plan
+	json.Unmarshal(c01{}.Gen(runner.PlanSeed(seed, "C01-race", i), "quick"), &p)
+	r := simrt.NewRand(runner.PlanSeed(seed, "C01-race-sched", i))
+	p.Conc, p.ConcSeed = 2+i%2, r.U64()
+	p.Replicas = p.Replicas[:1]
+	if p.Forks == string(node.ForksDevLike) {
+		p.Forks = string(node.ForksLatestSync)
+	}
+	b, _ := json.Marshal(p)
+	return b
+}
+
+func (c01) RaceFrames() []string {
+	return []string{"/src/storage/account.", "/src/executor.", "/src/vm.", "/src/service.", "/src/core.", "/src/storage/trie.", "/src/common."}
 }
